@@ -1,2 +1,47 @@
-From TV Require Import Base.
-Example C19_placeholder : True. Proof. exact I. Qed.
+(* C19 -- the ZeroMQ push stream preserves order and creates one socket.
+   Interleaving semantics: [replay z_init l = Some z] says the action list l (thread steps taken
+   in any order -- every suspension point, incl. socket-creation and drain latency, is a separate
+   step that may be taken arbitrarily later --, messages queued on the adapter, direct send
+   sequences started, setup()'s own _ensure_socket) is a possible execution ending in z.
+   asyncio.Lock / asyncio.Queue FIFO behaviour is the modelled contract; the correspondence run
+   replays every atomic step of the real ZeroMqPushIo as such an execution.
+   Property theorems only. *)
+From TV Require Import Base Model.Zmq Proofs.ZmqP.
+
+(* however many sends race (at start-up or later), at most one socket is ever created *)
+Theorem C19_one_socket : forall l z, replay z_init l = Some z -> (z_created z <= 1)%nat.
+Proof. exact one_socket. Qed.
+
+(* ... and it exists exactly when some thread has been through _ensure_socket *)
+Theorem C19_socket_iff_created : forall l z,
+  replay z_init l = Some z -> z_created z = if z_socket z then 1%nat else 0%nat.
+Proof.
+  intros l z H. destruct (replay_inv1 l z_init z Inv1_init H) as [_ _ _ H4]. exact H4.
+Qed.
+
+(* for every interleaving: the queued messages that have been written so far are a prefix of
+   the queue order -- each written once, none skipped, none reordered.  [isq] tells queued
+   message identities from directly sent ones. *)
+Theorem C19_fifo_once : forall (isq : msgid -> bool) l z,
+  forallb (valid_action isq) l = true -> replay z_init l = Some z ->
+  exists rest, filter isq (z_writes z) ++ rest = queued_of l.
+Proof. exact fifo_once. Qed.
+
+(* the fixed serialisation rule: bytes unchanged; strings, mappings and models as JSON (a model
+   through its dict); anything else is rejected *)
+Theorem C19_serialise : forall p,
+  serialize_part p =
+  match p with
+  | PBytes b => Some (WBytes b) | PStr s => Some (WJsonStr s)
+  | PMap d => Some (WJsonMap d) | PModel d => Some (WJsonMap d) | POther => None
+  end.
+Proof. intros []; reflexivity. Qed.
+
+(* non-vacuity: setup and a direct sender race for the socket, then a queued message follows *)
+Example C19_example :
+  match replay z_init [ASetup; AStep 1; AStep 1; ASpawn [7%Z]; AStep 2; AStep 1; AStep 1; AStep 2; AStep 2; AStep 2;
+                       AQueue 1%Z; AStep 0; AStep 0; AStep 0; AStep 0; AStep 2; AStep 0] with
+  | Some z => z_created z = 1%nat /\ z_writes z = [7%Z; 1%Z]
+  | None => False
+  end.
+Proof. vm_compute. split; reflexivity. Qed.
